@@ -382,6 +382,8 @@ func search(args map[string]string) {
 	type witness struct {
 		prefix, region, suffix []string
 		q                      bool
+		both                   bool // evaluate with and without the query round
+		p002off                bool
 	}
 	var directed []witness
 	{
@@ -390,24 +392,52 @@ func search(args map[string]string) {
 		k32 := "0000000000000000000000000000000000000000000000000000000000000001"
 		v := func(b byte) string { return strings.Repeat("00", 31) + fmt.Sprintf("%02x", b) }
 		directed = []witness{
-			{[]string{"create " + a1}, []string{"setdata " + a1 + " 6b 01"}, nil, false},
-			{[]string{"create " + a1}, []string{"setdata " + a1 + " 6b 01"}, nil, true},
-			{[]string{"setdata " + a1 + " 6b 07", "commit 1", "reopen"}, []string{"setnonce " + a1 + " 5"}, nil, false},
-			{[]string{"setdata " + a1 + " 6b 07", "commit 1", "reopen"}, []string{"addft " + a1 + " 663a78 0"}, []string{"setnonce " + a1 + " 5"}, false},
+			{[]string{"create " + a1}, []string{"setdata " + a1 + " 6b 01"}, nil, false, false, false},
+			{[]string{"create " + a1}, []string{"setdata " + a1 + " 6b 01"}, nil, true, false, false},
+			{[]string{"setdata " + a1 + " 6b 07", "commit 1", "reopen"}, []string{"setnonce " + a1 + " 5"}, nil, false, false, false},
+			{[]string{"setdata " + a1 + " 6b 07", "commit 1", "reopen"}, []string{"addft " + a1 + " 663a78 0"}, []string{"setnonce " + a1 + " 5"}, false, false, false},
 			{[]string{"setstate " + a1 + " " + k32 + " " + v(1), "commit 1", "reopen", "setstate " + a1 + " " + k32 + " " + v(2), "committed " + a1 + " " + k32},
-				[]string{"setstate " + a1 + " " + k32 + " " + v(3)}, nil, false},
+				[]string{"setstate " + a1 + " " + k32 + " " + v(3)}, nil, false, false, false},
 			{[]string{"setstate " + a1 + " " + k32 + " " + v(1), "commit 1", "reopen", "setstate " + a1 + " " + k32 + " " + v(2)},
-				[]string{"committed " + a1 + " " + k32}, nil, true},
+				[]string{"committed " + a1 + " " + k32}, nil, true, false, false},
 			// no finding: pending deletion of a committed slot, rewritten in the region (seeded regression C04-a)
 			{[]string{"setnonce " + a1 + " 1", "setdata " + a1 + " 6b6b a045", "commit 1", "reopen", "setdata " + a1 + " 6b6b -"},
-				[]string{"setdata " + a1 + " 6b6b 09"}, nil, true},
+				[]string{"setdata " + a1 + " 6b6b 09"}, nil, true, false, false},
 			{[]string{"setnonce " + a1 + " 1", "setdata " + a1 + " 6b6b a045", "commit 1", "reopen", "setdata " + a1 + " 6b6b -"},
-				[]string{"setdata " + a1 + " 6b6b 09"}, nil, false},
+				[]string{"setdata " + a1 + " 6b6b 09"}, nil, false, false, false},
 			{[]string{"setstate " + hx.Hex(u0.tok[:]) + " " + balKeyHex(u0.addrs[2]) + " " + v(5), "setnonce " + a1 + " 1"},
-				[]string{"suicide " + a1}, nil, true},
+				[]string{"suicide " + a1}, nil, true, false, false},
 			{[]string{"setstate " + hx.Hex(u0.tok[:]) + " " + balKeyHex(u0.addrs[2]) + " " + v(5), "setnonce " + a1 + " 1"},
-				[]string{"suicide " + a1}, nil, false},
+				[]string{"suicide " + a1}, nil, false, false, false},
 		}
+	}
+	{
+		// deterministic small-scope family, run before anything random: every ordered pair (op1, op2) of a
+		// 20-op alphabet on one account as `prefix; op1; snapshot; op2; revert`, from an empty and from a
+		// committed-and-reopened state
+		u0 := NewUniv(hx.NewRng(7))
+		a1 := hx.Hex(u0.addrs[2][:])
+		h1 := strings.Repeat("00", 31) + "01"
+		alphabet := []string{
+			"setnonce " + a1 + " 1", "incnonce " + a1, "setdata " + a1 + " 6b 09", "setdata " + a1 + " 6b -", "create " + a1,
+			"setcode " + a1 + " 60 " + hx.Hex(refKeccak([]byte{0x60})), "suicide " + a1, "addbal " + a1 + " 5", "subbal " + a1 + " 1",
+			"addft " + a1 + " 663a78 0", "addft " + a1 + " 663a78 2", "addrefund 3", "subrefund 1", "addlog " + a1 + " - 01",
+			"aladdr " + a1, "alslot " + a1 + " " + h1, "tset " + a1 + " " + h1 + " " + h1, "bal " + a1, "getdata " + a1 + " 6b",
+			"setstate " + a1 + " " + h1 + " " + h1,
+		}
+		bases := [][]string{{}, {"setnonce " + a1 + " 1", "setdata " + a1 + " 6b 07", "addrefund 9", "commit 1", "reopen", "addrefund 9"}}
+		for _, base := range bases {
+			for _, op1 := range alphabet {
+				for _, op2 := range alphabet {
+					pre := append(append([]string{}, base...), op1)
+					directed = append(directed, witness{prefix: pre, region: []string{op2}, both: true})
+				}
+			}
+		}
+		// historical configuration: Proposal002 not yet active (balance writes of AddFT/SubFT are not journaled)
+		directed = append(directed,
+			witness{prefix: []string{"setbal " + a1 + " 7"}, region: []string{"addbal " + a1 + " 2"}, q: true, p002off: true},
+			witness{prefix: []string{"setbal " + a1 + " 7"}, region: []string{"subbal " + a1 + " 2"}, q: false, p002off: true})
 	}
 	for i := -len(directed); i < n; i++ {
 		var u *Univ
@@ -417,12 +447,20 @@ func search(args map[string]string) {
 			u = NewUniv(r.Fork())
 		}
 		g := &G{r: r.Fork(), u: u}
-		header := u.Header(true)
+		p002 := true
+		both := false
 		var prefix, region, suffix []string
 		withQ := g.r.Bool()
 		if i < 0 {
 			w := directed[i+len(directed)]
 			prefix, region, suffix, withQ = w.prefix, w.region, w.suffix, w.q
+			p002, both = !w.p002off, w.both
+		}
+		if i >= 0 && g.r.Chance(1, 10) {
+			p002 = false // a share of the random trials runs under the pre-Proposal002 schedule
+		}
+		header := u.Header(p002)
+		if i < 0 {
 		} else if g.r.Chance(2, 5) {
 			prefix, region, suffix = g.SlotLifecycle()
 		} else {
@@ -498,9 +536,10 @@ func search(args map[string]string) {
 			addrs = append(addrs, hx.Hex(a[:]))
 		}
 		modes := []bool{true, false}
-		if i < 0 {
+		if i < 0 && !both {
 			modes = []bool{withQ}
 		}
+		balanceOp := mentions(region, "addbal ", "") || mentions(region, "subbal ", "") || mentions(region, "transfer ", "")
 		distinct[strings.Join(prefix, ";")+"|"+strings.Join(region, ";")+"|"+strings.Join(suffix, ";")] = true
 		for _, l := range region {
 			kinds[kind(l)]++
@@ -535,6 +574,9 @@ func search(args map[string]string) {
 				f := strings.Fields(A.qs[j])
 				v := base
 				switch {
+				case !p002 && balanceOp && (q == "bal" || q == "cantransfer" || q == "getdata" || q == "getstate"):
+					v.Key = "pre-proposal002-balance-not-journaled"
+					v.Desc = "Proposal002 not active: AddFT/SubFT wrote the balance slot without a journal entry, the revert does not restore it: " + A.qs[j]
 				case q == "empty":
 					v.Key = "empty-query-after-revert"
 					v.Desc = "Empty(addr) answers differently after a reverted region: " + A.qs[j]
@@ -574,6 +616,10 @@ func search(args map[string]string) {
 			} else if A.content != B.content {
 				v := base
 				v.Key, v.Desc = classifyRoot(A, B, prefix, region)
+				if !p002 && balanceOp && (v.Key == "leaf-differs-after-revert" || v.Key == "extra-account-after-revert") && strings.Contains(v.Desc, hx.Hex(u.tok[:])) {
+					v.Key = "pre-proposal002-balance-not-journaled"
+					v.Desc = "Proposal002 not active: un-journaled balance write survives the revert: " + v.Desc
+				}
 				v.A, v.B = A.content, B.content
 				emit(v)
 			}
